@@ -31,7 +31,7 @@ ASSUMPTIONS = [
 REQUIRED_CLASSES = ["nontrivial", "fallback_global", "outside_one_axis", "outside_both_axes", "reversed_end_returned",
                     "id0_returned", "bins=1", "bins=2", "bins>=3", "none_returned", "within_one_cell",
                     "query_at_end", "reverse_on", "reverse_off", "neighbourhood_not_global", "after_removal",
-                    "lattice", "continuous", "id0_in_neighbourhood", "other_index_alive"]
+                    "lattice", "continuous", "id0_in_neighbourhood", "other_index_alive", "vertices_as_tuples"]
 QUICK_SHARDS = 4
 
 spatial_grid = sut.load("spatial_grid")
@@ -84,10 +84,13 @@ def sqd(p, q):
 
 
 def body(ctx, case):
-    paths = [[list(a), list(b)] for a, b in case["paths"]]
+    mk = tuple if case.get("tuples") else list          # the docstring says "(x, y) tuple"; callers also pass lists
+    paths = [[mk(a), mk(b)] for a, b in case["paths"]]
     bins, reverse = case["bins"], case["reverse"]
     base = set(case.get("tags", []))
     base.add("reverse_on" if reverse else "reverse_off")
+    if case.get("tuples"):
+        base.add("vertices_as_tuples")
     base.add("bins=1" if bins == 1 else ("bins=2" if bins == 2 else "bins>=3"))
     count = len(paths)
     what = "Index(%r, %r, %r)" % (case["paths"], bins, reverse)
@@ -137,7 +140,7 @@ def body(ctx, case):
         if removed:
             classes.add("after_removal")
         try:
-            got = index.nearest(list(q))
+            got = index.nearest(mk(q))
         except Exception as exc:  # pylint: disable=broad-except
             ctx.record(sub, classes, removed > 0)
             ctx.fail("%s: nearest(%r) raised %s: %s after %r" % (what, q, type(exc).__name__, exc, shown[:-1]), sub)
@@ -340,7 +343,8 @@ def histories(draw):
         ops.append(["q", q])
     if drain:
         ops.append(["q", list(indexed[0])])
-    case = {"paths": paths, "bins": bins, "reverse": reverse, "ops": ops, "tags": [tag, kind]}
+    case = {"paths": paths, "bins": bins, "reverse": reverse, "ops": ops, "tags": [tag, kind],
+            "tuples": draw(st.integers(0, 2)) == 0}
     if draw(st.integers(0, 3)) == 0:
         case["decoy"] = [draw(st.sampled_from([b for b in (1, 2, 3, 4, 5, 7, 12) if b != bins])), draw(st.booleans()),
                          draw(st.sampled_from([1, 3, scale]))]
